@@ -15,7 +15,7 @@ RULE = (
     "repeated and mid-tick signals). Oracle: (a) a small reference model written from the statement (unexpected exits "
     "count toward max_fails iff max_fails >= 1; reload-all restarts each slot once per tick for free; a shutdown signal "
     "ends the manager with the success status) must agree with the real ProcessManager on the outcome (running / "
-    "return value) and on the tick at which it returns - for all histories without mid-tick signals; (b) in a tick in "
+    "return value), on the tick at which it returns and on the processes started in that last tick (those queued before the ending action, none after it) - for all histories without mid-tick signals; (b) in a tick in "
     "which a reload-all is handled every slot is restarted exactly once, and never twice in any tick; (c) on "
     "SIGINT/SIGTERM: os.kill targets are current workers only, each at most once, never an already reaped pid, every "
     "live worker is signalled, no process is started afterwards, the manager returns None and raises nothing. "
@@ -65,6 +65,13 @@ def run_case(case: Dict[str, Any]) -> Outcome:
                 elif e[0] == "start" and tick > 0:
                     per.setdefault(tick, {})
                     per[tick][e[1]] = per[tick].get(e[1], 0) + 1
+            if m["status"] == "returned":
+                # what was queued BEFORE the action that ends the manager is still handled, nothing after it
+                got_final = sorted(s_ for s_, n_ in per.get(m["tick"], {}).items() for _ in range(n_))
+                if got_final != m["final_starts"]:
+                    out.add("C18.c" if m["ret"] is None else "C18.a",
+                            f"tick {m['tick']} (the manager returns {m['ret']!r} in it): processes started for slots {got_final}, the reference model "
+                            f"starts {m['final_starts']} before the ending action is reached and none after it")
             for tk, slots in m["reload_ticks"].items():
                 if m["status"] == "returned" and m["tick"] == tk:
                     continue
